@@ -99,6 +99,13 @@ class _Instant:
             from symex.core import Unsupported
 
             raise Unsupported("astimezone on a naive datetime model (system local time)")
+        # the result must itself be a representable datetime in the target zone
+        dst = tz_offset_seconds(tz) if tz is not None else 0
+        local = utc_seconds(self.fields, src) + (dst or 0)
+        lo = utc_seconds((1, 1, 1, 0, 0, 0), 0)
+        hi = utc_seconds((9999, 12, 31, 23, 59, 59), 0)
+        if local < lo or local > hi:
+            raise OverflowError("date value out of range")
         r = OpaqueDatetime(tz, self.fields)
         r.fields_offset = src
         return r
